@@ -418,6 +418,13 @@ class Types(object):
                     if ts - self.field_types.get(key, set()):
                         self.field_types.setdefault(key, set()).update(ts)
                         changed = True
+            for kw in call.keywords:
+                if kw.arg is not None and kw.arg in ci.record_fields:
+                    ts = self.static_type(kw.value, fi)
+                    key = (ci.key, kw.arg)
+                    if ts - self.field_types.get(key, set()):
+                        self.field_types.setdefault(key, set()).update(ts)
+                        changed = True
             return changed
         if callee is not None:
             for pname, aexpr in self._bind_call(callee, call, skip):
